@@ -856,6 +856,44 @@ func diskMain(inPath, outPath string) {
 				}
 			}
 		}
+		// every registered codec is handed a frame description by its caller: a description that
+		// disagrees with the (valid) stream is one more way storage and stream can be out of step
+		if it.family != "rle" {
+			vals := []int{0, 1, 2, 3, 7, 8, 9, 12, 15, 16, 17, 32, 255, 65535}
+			if it.ht {
+				vals = []int{0, 1, 3, 8, 16, 65535}
+			}
+			for _, entry := range ents {
+				if !strings.HasPrefix(entry, "codec:") {
+					continue
+				}
+				for _, f := range []string{"Rows", "Columns", "BitsAllocated", "BitsStored", "SamplesPerPixel", "PixelRepresentation", "PlanarConfiguration"} {
+					for _, v := range vals {
+						in := it.info
+						switch f {
+						case "Rows":
+							in.H = v
+						case "Columns":
+							in.W = v
+						case "BitsAllocated":
+							in.BA = v
+						case "BitsStored":
+							in.BS = v
+						case "SamplesPerPixel":
+							in.SPP = v
+						case "PixelRepresentation":
+							in.PR = v
+						case "PlanarConfiguration":
+							in.Planar = v
+						}
+						f, v := f, v
+						s.one(entry, it, in, true, func() ([]byte, []string) {
+							return it.data, []string{fmt.Sprintf("info-corrupt(%s=%d)", f, v)}
+						})
+					}
+				}
+			}
+		}
 		// RLE: the frame description is faulted independently
 		if it.family == "rle" {
 			vals := []int{0, 1, 2, 3, 7, 8, 9, 15, 16, 17, 24, 32, 33, 64, 255, 256, 4096, 65535}
